@@ -13,6 +13,7 @@ package main
 
 import (
 	"context"
+	"crypto"
 	"fmt"
 	"hash"
 	"math/rand/v2"
@@ -37,8 +38,12 @@ import (
 func c23TrustSigners(ia addr.IA, signers []c23SignerCfg) fixedSigners {
 	var ss fixedSigners
 	for _, s := range signers {
+		var priv crypto.Signer = s.key.Priv
+		if s.fault != nil {
+			priv = s.fault // fault-injecting key backend, c23fault.go
+		}
 		ss = append(ss, trust.Signer{
-			PrivateKey:    s.key.Priv,
+			PrivateKey:    priv,
 			Algorithm:     s.key.Algo,
 			IA:            ia,
 			SubjectKeyID:  s.key.SKID,
